@@ -453,3 +453,27 @@ Theorem C05_loops_rs_match_model w lg : 0 <= lg -> w = 2 ^ lg ->
      Loops.reverse_bits w (Z.of_nat n) fuel a = Done (reverse_bits w a)).
 Proof. exact (loops_C05_match_model w lg). Qed.
 Print Assumptions C05_loops_rs_match_model.
+(* ==== glue tie, round 2 (text written by tools/mk_gluetie.py; keep at the END of the file) ==== *)
+(* ---- tie to the source, second round: the non-loop functions (rotate_left/right, unbounded_shl/shr of buint/mod.rs and bint/mod.rs; unchecked_shl / unchecked_shr) REGENERATED from /repo/src on every run
+   (Generated/Glue.v, tools/rs2v_glue.py) are the model's, function by function, for every digit width, digit count,
+   build mode and operand (no well-formedness hypothesis): an edit of the source that changes what one of these
+   functions computes or delegates to breaks this theorem ---- *)
+From Bnum.Model Require Import Digit Core Shift AddSub Mul Div Bits Pow.
+From Bnum.Model Require Ops NumTraits.
+From Bnum.Generated Require Import Glue.
+From Bnum.Proofs Require Import GlueTieCommon GlueTieC05.
+Theorem C05_glue2_rs_matches_model :
+  (forall w a k, Glue.U_rotate_left w a k = rotate_left w a k) /\
+  (forall w a k, Glue.U_rotate_right w a k = rotate_right w a k) /\
+  (forall w a k, Glue.U_unbounded_shl w a k = U_unbounded_shl w a k) /\
+  (forall w a k, Glue.U_unbounded_shr w a k = U_unbounded_shr w a k) /\
+  (forall w a k, Glue.I_rotate_left w a k = rotate_left w a k) /\
+  (forall w a k, Glue.I_rotate_right w a k = rotate_right w a k) /\
+  (forall w a k, Glue.I_unbounded_shl w a k = I_unbounded_shl w a k) /\
+  (forall w a k, Glue.I_unbounded_shr w a k = I_unbounded_shr w a k) /\
+  (forall w a k, Glue.U_unchecked_shl w a k = U_checked_shl w a k) /\
+  (forall w a k, Glue.U_unchecked_shr w a k = U_checked_shr w a k) /\
+  (forall w a k, Glue.I_unchecked_shl w a k = I_checked_shl w a k) /\
+  (forall w a k, Glue.I_unchecked_shr w a k = I_checked_shr w a k).
+Proof. exact glue_rotate_matches_model. Qed.
+Print Assumptions C05_glue2_rs_matches_model.
